@@ -65,7 +65,17 @@ impl Ctl {
             self.class_calls += 1;
             if self.fail_at.contains(&self.class_calls) {
                 self.fired.push((self.class_calls, kind));
-                let kind = if self.fail_kind == "interrupted" { io::ErrorKind::Interrupted } else { io::ErrorKind::Other };
+                // the properties speak of failures of ANY kind: the library must not read a meaning into the kind of an
+                // error it did not cause (UnexpectedEof is not "the file ends here", WouldBlock is not "try again")
+                let kind = match self.fail_kind.as_str() {
+                    "interrupted" => io::ErrorKind::Interrupted,
+                    "unexpected_eof" => io::ErrorKind::UnexpectedEof,
+                    "would_block" => io::ErrorKind::WouldBlock,
+                    "timed_out" => io::ErrorKind::TimedOut,
+                    "invalid_data" => io::ErrorKind::InvalidData,
+                    "write_zero" => io::ErrorKind::WriteZero,
+                    _ => io::ErrorKind::Other,
+                };
                 return Err(io::Error::new(kind, "injected fault"));
             }
         }
